@@ -366,7 +366,7 @@ const hdrDec = "From Verif Require Import Base.Prelude Enc.CborEnc Enc.CborDec H
 const hdrJson = "From Verif Require Import Base.Prelude Enc.CborEnc Harness.C09H Harness.C08H.\nOpen Scope N_scope."
 
 func runC08(c *Ctx) {
-	c.Res.Rule = "a case is one logging program of the shared generator (every field method of Event / Context / Array, Dict / Object / EmbedObject / Fields nesting <= 3, context layers, level, message; values restricted to what the property quantifies over: 4/16-byte IPs, 6-byte MACs, canonical prefixes, embedded JSON that is JSON; all times of a program in one location), executed under both build tags from the same seed; plus directed programs: every definite-length typed slice method with 256 and more elements (counts around the 1-/2-byte header widths and counts whose low byte is below 24 with model shards; counts around the 2-/4-byte width, 65535..65559, Go-side only), an alignment sweep (one event / a three-event stream carrying every tagged and multi-byte value kind behind a padding string of EVERY length of the windows that move the value block across stream offsets 4096, 8192 and 12288, followed by 4200 more bytes; the same event through readers delivering 4 .. 512 bytes per Read at every offset; every generated line through readers delivering 1 .. 4095 bytes per Read and all lines as one stream), each decoded text compared with the JSON build's line; and a grid of fractional instants (seconds x nanoseconds, up to years 1066 and 9999 and both sides of the int64-nanosecond range) through Time, Times, Context.Time and Timestamp; corpus first (Uint(1<<63), Uint64(MaxUint64), Bytes with quote/backslash/newline/0xff, Fields with []error, field-less EmbedObject in a context); non-trivial = at least one field besides the level; distinct by the field-list term"
+	c.Res.Rule = "a case is one logging program of the shared generator (every field method of Event / Context / Array, Dict / Object / EmbedObject / Fields nesting <= 3, context layers, level, message; values restricted to what the property quantifies over: 4/16-byte IPs, 6-byte MACs, canonical prefixes, embedded JSON that is JSON; all times of a program in one location), executed under both build tags from the same seed; plus directed programs: every definite-length typed slice method with 256 and more elements (counts around the 1-/2-byte header widths and counts whose low byte is below 24 with model shards; counts around the 2-/4-byte width, 65535..65559, Go-side only), an alignment sweep (one event / a three-event stream carrying every tagged and multi-byte value kind behind a padding string of EVERY length of the windows that move the value block across stream offsets 4096, 8192 and 12288, followed by 4200 more bytes; the same event through readers delivering 4 .. 512 bytes per Read at every offset; every generated line through readers delivering 1 .. 4095 bytes per Read and all lines as one stream), each decoded text compared with the JSON build's line; and a grid of fractional instants (seconds x nanoseconds, up to years 1066 and 9999 and both sides of the int64-nanosecond range) through Time, Times, Context.Time and Timestamp; programs that assign the configuration globals at RUN TIME and restore them (InterfaceMarshalFunc = encoding/json.Marshal / a wrapper object / a redacting / constant / failing / stateful marshaller x 10 entry points ending in Interface (Event / Context / Arr / Dict Interface and Any, Fields slice and map, Stringer(nil), errors and stacks answering a value) x assigned before the logger exists / between the events of one logger / replaced by a second function / inside Func, Object or a hook of the event being built; ErrorMarshalFunc, ErrorStackMarshaler, LevelFieldMarshalFunc, Level*Value, the field names, TimestampFunc, CallerMarshalFunc, DurationFieldUnit / DurationFieldInteger and RFC 3339 TimeFieldFormats changing between the events of one logger), each a stream of 1 .. 42 events compared event by event (Go-side only); corpus first (Uint(1<<63), Uint64(MaxUint64), Bytes with quote/backslash/newline/0xff, Fields with []error, field-less EmbedObject in a context); non-trivial = at least one field besides the level; distinct by the field-list term"
 	ps := programs(c)
 	big := bigSlices(c, c.R.Fork())
 	if zerolog.VerifC08EncIsCBOR() {
@@ -442,6 +442,8 @@ func runBinary(c *Ctx, ps, big []*cborgen.Prog) {
 	// directed: where the decoder's reads fall (align.go)
 	chunkedDecodes(c, chIdx, chBins, chDecs, chErrs)
 	alignBinary(c)
+	// directed: the configuration globals assigned at run time (globals.go)
+	globalsBinary(c)
 	// the big slices (Go-side only): reference parser here, the comparison with the JSON build's line in the variant run
 	if fb, err := os.Create(filepath.Join(c.Out, "lines_big.jsonl")); err == nil {
 		wb := bufio.NewWriter(fb)
@@ -712,6 +714,8 @@ func runJSON(c *Ctx, ps, big []*cborgen.Prog) {
 	}
 	// directed: the alignment sweep (align.go), first so that its witnesses are the ones kept
 	alignJSON(c, parent, compare)
+	// directed: the configuration globals assigned at run time (globals.go)
+	globalsJSON(c, parent, compare)
 	chunkRecs, _ := readRecs(filepath.Join(parent, "lines_chunk.jsonl"))
 	chunkCompared := 0
 	for i, p := range ps {
